@@ -116,3 +116,52 @@ Section T.
     all_nf Hn; destruct Hr as [-> | ->]; all_pid Hp; destruct pv; repeat split; wcbv'; field; nz.
   Qed.
 End T.
+
+(* ---------------------------------------------------------------- C07: linearity in the couplings *)
+(* The neutral-current weight builders are additive in get_weight / get_fl11_weight; together with
+   WTheorems.pos_charge_partition (the six restricted get_weight's add up to the unrestricted one)
+   this gives: the six NCPositivityCharge runs add up to the unrestricted run, map by map. *)
+Section Additive.
+  Context {fld : Fld}.
+  Add Field FfA : Fth.
+  Local Open Scope F_scope.
+  Variables gwa gwb : Z -> ctype -> mask -> F.
+  Variables gfa gfb : Z -> Z -> ctype -> F.
+  Definition gw_add : Z -> ctype -> mask -> F := fun p c k => gwa p c k + gwb p c k.
+  Definition gf_add : Z -> Z -> ctype -> F := fun p n c => gfa p n c + gfb p n c.
+  Ltac all_nf H := destruct H as [->|[->|[-> | ->]]].
+  Ltac all_pid H := destruct H as [->|[->|[->|[->|[->|[->|[->|[->|[->|[->|[->|[->| ->]]]]]]]]]]]].
+  Ltac acbv := cbv -[F f0 f1 fadd fmul fsub fopp fdiv finv gwa gwb gfa gfb not].
+
+  Theorem nc_weights_additive nf pv skip p : nf36 nf -> pid_dom p ->
+    f1 + f1 + f1 <> f0 -> f1 + f1 <> f0 -> f1 + (f1 + f1) * (f1 + f1) <> f0 ->
+    let W gw := nc_weights gw nf pv skip in
+    pget (nc_ns (W gw_add)) p = pget (nc_ns (W gwa)) p + pget (nc_ns (W gwb)) p
+    /\ pget (nc_g (W gw_add)) p = pget (nc_g (W gwa)) p + pget (nc_g (W gwb)) p
+    /\ pget (nc_s (W gw_add)) p = pget (nc_s (W gwa)) p + pget (nc_s (W gwb)) p
+    /\ pget (nc_v (W gw_add)) p = pget (nc_v (W gwa)) p + pget (nc_v (W gwb)) p.
+  Proof.
+    intros Hn Hp H3 H2 H5 W; subst W.
+    all_nf Hn; all_pid Hp; destruct pv, skip; repeat split; acbv; field; nz.
+  Qed.
+  Theorem nc_fl11_weights_additive nf p : nf36 nf -> pid_dom p ->
+    f1 + f1 + f1 <> f0 -> f1 + f1 <> f0 -> f1 + (f1 + f1) * (f1 + f1) <> f0 ->
+    pget (fst (nc_fl11_weights gf_add nf)) p = pget (fst (nc_fl11_weights gfa nf)) p + pget (fst (nc_fl11_weights gfb nf)) p
+    /\ pget (snd (nc_fl11_weights gf_add nf)) p = pget (snd (nc_fl11_weights gfa nf)) p + pget (snd (nc_fl11_weights gfb nf)) p.
+  Proof.
+    intros Hn Hp H3 H2 H5.
+    all_nf Hn; all_pid Hp; repeat split; acbv; field; nz.
+  Qed.
+  Theorem heavy_nc_weights_additive nf ihq p : nf36 nf -> pid_dom p ->
+    let W gw := heavy_nc_weights gw nf ihq in
+    let g1 (x : pmap * pmap * pmap * pmap) := fst (fst (fst x)) in let g2 (x : pmap * pmap * pmap * pmap) := snd (fst (fst x)) in
+    let g3 (x : pmap * pmap * pmap * pmap) := snd (fst x) in let g4 (x : pmap * pmap * pmap * pmap) := snd x in
+    pget (g1 (W gw_add)) p = pget (g1 (W gwa)) p + pget (g1 (W gwb)) p
+    /\ pget (g2 (W gw_add)) p = pget (g2 (W gwa)) p + pget (g2 (W gwb)) p
+    /\ pget (g3 (W gw_add)) p = pget (g3 (W gwa)) p + pget (g3 (W gwb)) p
+    /\ pget (g4 (W gw_add)) p = pget (g4 (W gwa)) p + pget (g4 (W gwb)) p.
+  Proof.
+    intros Hn Hp W g1 g2 g3 g4; subst W g1 g2 g3 g4.
+    all_nf Hn; all_pid Hp; repeat split; acbv; ring.
+  Qed.
+End Additive.
